@@ -348,6 +348,85 @@ def explore_async(cfg, shard, nshards, counters, violations, sigs, samples, budg
     return complete
 
 
+# ------------------------------------------------------------------ asyncio: cancellation of a sender
+async def _cancel_run(cfg, cancel_at, rec):
+    """Sender A0 is cancelled while the callback processing its event is suspended at its
+    `cancel_at`-th gate point; afterwards sender A1 sends its events: all of them must be processed."""
+    cls, src = build(rec, True)
+    gate = SA.Gate([])
+    rec.gate = gate
+    sm = cls()
+    await sm.activate_initial_state()
+    sent = {}
+
+    async def sender(name, n):
+        for i in range(n):
+            tok = f"{name}.{i}"
+            sent.setdefault(name, []).append(tok)
+            rec.emit("send_call", tok=tok, event="tick", sender=name)
+            res = await sm.send("tick", _tok=tok)
+            rec.emit("send_return", tok=tok, val=repr(res))
+
+    a0 = asyncio.create_task(sender("A0", 1), name="A0")
+    points = 0
+    cancelled = False
+    for _ in range(200):
+        await asyncio.sleep(0)
+        if a0.done():
+            break
+        if gate.parked:
+            points += 1
+            if points == cancel_at:
+                a0.cancel()
+                cancelled = True
+                # the parked callback tasks belong to A0's await chain: they are cancelled with it
+                break
+            name = sorted(gate.parked)[0]
+            gate.parked.pop(name).set_result(None)
+    try:
+        await asyncio.wait_for(asyncio.gather(a0, return_exceptions=True), 5)
+    except asyncio.TimeoutError:
+        pass
+    for name in list(gate.parked):
+        fut = gate.parked.pop(name)
+        if not fut.done():
+            fut.cancel()
+    await asyncio.sleep(0)
+    # second sender, after the cancellation: plain default schedule
+    a1 = asyncio.create_task(sender("A1", cfg["sends"]), name="A1")
+    stuck = None
+    try:
+        await asyncio.wait_for(gate.controller([a1]), 10)
+    except (SA.Stuck, asyncio.TimeoutError) as err:
+        stuck = type(err).__name__
+    if not a1.done():
+        a1.cancel()
+    await asyncio.gather(a1, return_exceptions=True)
+    return sent, cancelled, stuck, src
+
+
+def explore_cancel(cfg, counters, violations, sigs, samples):
+    for cancel_at in range(1, 8):
+        rec = Recorder()
+        rec.scripts = scripts(cfg)
+        rec.send_budget = 99
+        sent, cancelled, stuck, src = asyncio.run(_cancel_run(cfg, cancel_at, rec))
+        if not cancelled:
+            break
+        counters["async_schedules"] += 1
+        counters["cancellations"] = counters.get("cancellations", 0) + 1
+        sigs.add(h(("cancel", cfg, cancel_at)))
+        after = {"A1": sent.get("A1", [])}
+        log = [e for e in rec.log if e.get("tok", "").startswith("A1") or e["k"] in ("cb_begin", "cb_end") and str(e.get("tok")).startswith("A1")]
+        problems = check_history(log, after, stuck is None, {})
+        if stuck:
+            problems.append(("stuck", f"sender A1 did not finish after A0 was cancelled ({stuck})"))
+        for mech, detail in problems:
+            violations.append({"mechanism": f"asyncio-after-cancellation:{mech}", "rule": "C06." + mech,
+                               "detail": f"A0 cancelled at its gate point {cancel_at}; then: {detail}",
+                               "witness": {"kind": "asyncio-cancel", "cfg": cfg, "schedule": [cancel_at], "source": src}})
+
+
 # ------------------------------------------------------------------ plan
 def plan(tier, seed):
     S = []
@@ -365,6 +444,8 @@ def plan(tier, seed):
         for i in range(3):
             S.append({"kind": "threads-random", "cfg": {"senders": 3 + (i % 2), "sends": 2, "yields": 1, "nested": i == 0}, "n": 120, "seed": seed * 31 + i})
         S.append({"kind": "asyncio", "cfg": {"senders": 2, "sends": 1, "yields": 2, "yield_after": True}, "shard": 0, "nshards": 1})
+        S.append({"kind": "asyncio-cancel", "cfg": {"senders": 2, "sends": 2, "yields": 2, "yield_after": True}})
+        S.append({"kind": "asyncio-cancel", "cfg": {"senders": 2, "sends": 2, "yields": 1, "nested": True}})
         S.append({"kind": "asyncio", "cfg": {"senders": 2, "sends": 2, "yields": 2, "nested": True}, "shard": 0, "nshards": 1})
         S.append({"kind": "asyncio", "cfg": {"senders": 2, "sends": 2, "yields": 2, "activate_first": False}, "shard": 0, "nshards": 1})
         for i in range(2):
@@ -395,6 +476,7 @@ def plan(tier, seed):
             S.append({"kind": "asyncio", "cfg": {"senders": 4, "sends": 2, "yields": 1}, "shard": i, "nshards": 8})
         for i in range(4):
             S.append({"kind": "asyncio", "cfg": {"senders": 3, "sends": 3, "yields": 2, "nested": True}, "shard": i, "nshards": 4})
+        S.append({"kind": "asyncio-cancel", "cfg": {"senders": 2, "sends": 3, "yields": 3, "yield_after": True, "nested": True}})
         for i in range(4):
             S.append({"kind": "asyncio", "cfg": {"senders": 2, "sends": 2, "yields": 2, "nested": True, "activate_first": False}, "shard": i, "nshards": 4})
         budget = 500
@@ -411,6 +493,8 @@ def run_shard(desc):
         return replay(desc["replay"])
     if desc["kind"] == "threads":
         complete = explore_threads(desc["cfg"], desc["bound"], desc["shard"], desc["nshards"], counters, violations, sigs, samples, desc["budget_s"])
+    elif desc["kind"] == "asyncio-cancel":
+        explore_cancel(desc["cfg"], counters, violations, sigs, samples)
     elif desc["kind"] == "threads-random":
         explore_threads(desc["cfg"], 99, 0, 1, counters, violations, sigs, samples, desc["budget_s"], mode="random", seed=desc["seed"], n_random=desc["n"])
     else:
@@ -432,6 +516,10 @@ def replay(witness):
     w = witness["witness"]
     counters = {"thread_schedules": 0, "async_schedules": 0, "dispatch_switches": 0, "tokens_checked": 0}
     violations = []
+    if w["kind"] == "asyncio-cancel":
+        sigs = set()
+        explore_cancel(w["cfg"], counters, violations, sigs, [])
+        return {"evaluations": 1, "violations": violations, "counters": counters}
     if w["kind"] == "threads":
         ST.install()
         try:
